@@ -49,12 +49,23 @@ def r07_2(rep, M, rid):
             rep.violation(rid, "candidate ranking data", "the (letter, element) counts used for ranking are not computed with the candidate's "
                           "permutation", M.where(GS, cnt[0]))
     # application: matrix and permutation read from the same chosen representation, which is recorded as _best_transform
-    def src_of(name, key):
+    def src_of(name, key, depth=4, seen=None):
+        """owners `d` of `d[key]` that a local is derived from, through chains of plain assignments (rotation = T[0:3, 0:3]; T = d["transformation"])"""
+        seen = seen if seen is not None else set()
         out = set()
+        if name in seen or depth < 0:
+            return out
+        seen.add(name)
         for s in env.get(name, []):
+            hit = False
             for x in ast.walk(s.value):
                 if isinstance(x, ast.Subscript) and isinstance(x.slice, ast.Constant) and x.slice.value == key:
                     out.add(norm(x.value))
+                    hit = True
+            if not hit:
+                for x in ast.walk(s.value):
+                    if isinstance(x, ast.Name) and x.id in env:
+                        out |= src_of(x.id, key, depth - 1, seen)
         return out
     tm = [c for c in ast.walk(fn) if isinstance(c, ast.Call) and SR.resolver(M, GS)(c.func) in ("numpy.dot", "numpy.matmul")]
     tnames = {x.id for c in tm for a in c.args for x in ast.walk(a) if isinstance(x, ast.Name)}
